@@ -25,7 +25,7 @@ THEOREMS = ["c04_closure_correct", "c04_closure_fuel", "c04_recompute_inv", "c04
 MANIFEST = {
     "text": "Closure = reachability through direct parents (fuel proved sufficient); every successful ComputeNow operation of the spec layer and every history (fold_left) yields a store whose cached ancestors are exactly parent-reachability, acyclic, parents/indirect disjoint; rejection iff the edited parent graph has a cycle; is_ancestor_of / `e in a` / ancestor listing characterised under the invariant; enforce_tc_and_dag = Ok implies closed and acyclic (props/C04_TC.v). Tied to /repo by correspondence on operation histories (public API ComputeNow + core EnforceAlreadyComputed) against both model layers, plus an implementation-level oracle (independent BFS over the dumped direct parents, expected parent-graph edit, accept iff acyclic).",
     "technique": "proof (Coq, invariant over fold_left of store operations, saturation with measure) + correspondence by differential execution of histories",
-    "note": "incremental layer (strip + repair_tc as coded) is compared by correspondence only; its refinement to the spec layer is not proved",
+    "note": "incremental layer (strip + repair_tc as coded): only the edit phase is proved to produce the spec edit's direct parents (c04_inc_edit_parents_partial); that repair over the touched set recomputes the closure is compared by correspondence only; SCC-based compute_tc is modelled by its contract",
 }
 
 
